@@ -66,6 +66,12 @@ static bool make(const std::string& n, Named& out) {
     else if (n == "obj_empty") { out = {json(json_object_arg), K("object")}; }
     else if (n == "obj_a1") { out = {json::parse("{\"a\":1}"), K("object")}; }
     else if (n == "obj_a2") { out = {json::parse("{\"a\":2}"), K("object")}; }
+    // objects whose first differing member differs in the KEY, with the values ordered the other way round (ordering must stay antisymmetric)
+    else if (n == "obj_b1") { out = {json::parse("{\"b\":1}"), K("object")}; }
+    else if (n == "obj_a1c1") { out = {json::parse("{\"a\":1,\"c\":1}"), K("object")}; }
+    else if (n == "obj_a2b1") { out = {json::parse("{\"a\":2,\"b\":1}"), K("object")}; }
+    else if (n == "obj_b1c3") { out = {json::parse("{\"b\":1,\"c\":3}"), K("object")}; }
+    else if (n == "obj_a1b1") { out = {json::parse("{\"a\":1,\"b\":1}"), K("object")}; }
     else if (n == "obj_ab") { json o(json_object_arg); o.insert_or_assign("a", 1); o.insert_or_assign("b", 2); out = {o, K("object")}; }
     else if (n == "obj_ba") { json o(json_object_arg); o.insert_or_assign("b", 2); o.insert_or_assign("a", 1); out = {o, K("object")}; }
     else if (n == "arr_empty") { out = {json(json_array_arg), K("array")}; }
